@@ -93,9 +93,11 @@ def main():
         sys.exit(r.returncode)
 
     nshards = args.shards or (8 if args.tier == "quick" else 16)
-    rundir = os.path.join(VERIF, "run", prop)
-    shutil.rmtree(rundir, ignore_errors=True)
-    os.makedirs(rundir)
+    # a directory of its own for every invocation: two checks of the same property may run at the same time (a check of the
+    # unchanged tree next to one of a scratch tree) and must not read one another's shard results
+    import tempfile
+    os.makedirs(os.path.join(VERIF, "run"), exist_ok=True)
+    rundir = tempfile.mkdtemp(prefix="%s-%d-" % (prop, os.getpid()), dir=os.path.join(VERIF, "run"))
     timeout = 900 if args.tier == "quick" else 4 * 3600
     procs = []
     for s in range(nshards):
@@ -129,6 +131,8 @@ def main():
     from mpv import report
     rc = report.finish(prop, args.tier, args.seed, nshards, results, inconclusive, time.time() - t0,
                        VERIF, write_evidence=not args.no_evidence)
+    if rc == 0:
+        shutil.rmtree(rundir, ignore_errors=True)      # shard logs are kept only when something needs looking at
     sys.exit(rc)
 
 
